@@ -1,13 +1,19 @@
 //! C04 (file level): the writer dies at every hook point / shared access of `ShmWriter::new` + first
 //! `write`, over every kind of pre-existing file; then a restarted writer takes over. Observed: what
 //! the dead writer left in the file, whether it can be opened, what an already attached reader and a
-//! fresh reader see, whether a valid segment kept its inode and length.
+//! fresh reader see (both between the crash and the restart, and after the restart), whether a valid
+//! segment kept its inode and length.
 //!
 //!   crashpt <prior> <k> <k1> <k2>
-//!     prior : missing | empty | garbage | wiped | valid <gen> <k0>     (k* = record numbers, ra::rec_cells)
+//!     prior : missing | empty | garbage | wiped | valid <gen> <k0> | validv <version> <gen> <k0>
+//!             | foreign <gen> <k0>                                     (k* = record numbers, ra::rec_cells)
+//!             foreign = a 72-byte segment of ANOTHER layout revision: second magic word 0x43420100, but a
+//!             plausible size / version 1 / generation and a payload (record k0). It is not usable; nothing
+//!             of it may ever reach a client (nobody reads what was never published)
 //!     k     : the writer dies at its k-th event (0-based) of `new; write(rec k1)`; a k beyond the last
 //!             event means it completes
 //!   => ev <name of the fatal event | end> ; crashed open:<ok|err…> file:<len> attached:<cells|none|err>
+//!      fresh:<cells|none|err>      (first snapshot of a reader that attaches AFTER the crash, BEFORE the restart)
 //!      ; restarted inode_same:<0|1> len:<n> fresh:<cells|err…> attached:<cells|none|err>
 use crate::ra::rec_cells;
 use crate::util::*;
@@ -56,9 +62,10 @@ pub fn exec(toks: &[&str]) -> String {
     let (mut old, mut bin) = (false, false);
     while toks[i].starts_with('@') { match toks[i] { "@old" => old = true, "@bin" => bin = true, _ => return "bad-modifier".into() } i += 1; }
     let prior = toks[i]; i += 1;
-    // `valid <gen> <k>` (layout version 1) or `validv <version> <gen> <k>`
+    // `valid <gen> <k>` (layout version 1), `validv <version> <gen> <k>` or `foreign <gen> <k>` (version 1,
+    // wrong second magic word)
     let pv: u64 = if prior == "validv" { let v = toks[i].parse().unwrap(); i += 1; v } else { 1 };
-    let (pg, pk) = if prior == "valid" || prior == "validv" { let g: u64 = toks[i].parse().unwrap(); let k: u64 = toks[i + 1].parse().unwrap(); i += 2; (g, k) } else { (0, 0) };
+    let (pg, pk) = if prior == "valid" || prior == "validv" || prior == "foreign" { let g: u64 = toks[i].parse().unwrap(); let k: u64 = toks[i + 1].parse().unwrap(); i += 2; (g, k) } else { (0, 0) };
     let fatal: i64 = toks[i].parse().unwrap();
     let k1: u64 = toks[i + 1].parse().unwrap();
     let k2: u64 = toks[i + 2].parse().unwrap();
@@ -70,19 +77,22 @@ pub fn exec(toks: &[&str]) -> String {
     };
     let _ = std::fs::remove_file(&path);
     let _ = std::fs::remove_dir_all(&path);
-    let header = |ver: u16, gen: u16, cells: [u64; 7]| {
+    let header_m = |magic1: u32, ver: u16, gen: u16, cells: [u64; 7]| {
         let mut b = Vec::new();
-        b.extend_from_slice(&0x414D5A4Eu32.to_ne_bytes()); b.extend_from_slice(&0x43420200u32.to_ne_bytes());
+        b.extend_from_slice(&0x414D5A4Eu32.to_ne_bytes()); b.extend_from_slice(&magic1.to_ne_bytes());
         b.extend_from_slice(&72u32.to_ne_bytes()); b.extend_from_slice(&ver.to_ne_bytes()); b.extend_from_slice(&gen.to_ne_bytes());
         for c in cells.iter() { b.extend_from_slice(&c.to_ne_bytes()); }
         b
     };
+    let header = |ver: u16, gen: u16, cells: [u64; 7]| header_m(0x43420200, ver, gen, cells);
     match prior {
         "missing" => {}
         "empty" => std::fs::write(&path, b"").unwrap(),
         "garbage" => std::fs::write(&path, b"foobarbaz-not-a-segment-at-all-0123456789").unwrap(),
         "wiped" => std::fs::write(&path, header(0, 0, [0; 7])).unwrap(),
         "valid" | "validv" => std::fs::write(&path, header(pv as u16, pg as u16, rec_cells(pk))).unwrap(),
+        // a segment of another layout revision: everything plausible but the second magic word
+        "foreign" => std::fs::write(&path, header_m(0x43420100, 1, pg as u16, rec_cells(pk))).unwrap(),
         _ => return "bad-prior".into(),
     }
     let c = { use std::os::unix::ffi::OsStrExt; CString::new(path.as_os_str().as_bytes()).unwrap() };
@@ -109,6 +119,11 @@ pub fn exec(toks: &[&str]) -> String {
     let len1 = std::fs::metadata(&path).map(|m| m.len() as i64).unwrap_or(-1);
     // an attached reader must not touch a truncated mapping (SIGBUS): only snapshot when the file still covers the record
     let att1 = if len1 >= 72 { snap_text(&mut attached) } else if attached.is_some() { "sigbus-hazard".into() } else { "none".into() };
+    // a client that attaches now, between the crash and the restart: its first snapshot (same SIGBUS caution)
+    let fresh1_t = {
+        let mut fresh1 = ShmReader::new(&c).ok();
+        if fresh1.is_none() { "none".to_string() } else if len1 >= 72 { snap_text(&mut fresh1) } else { "sigbus-hazard".into() }
+    };
     // restart: a new writer over whatever is there, then one publication
     let p3 = path.clone();
     let r = guarded(std::panic::AssertUnwindSafe(move || { let mut w = ShmWriter::new(&p3).expect("new"); w.write(&record_of(k2)); }));
@@ -121,19 +136,20 @@ pub fn exec(toks: &[&str]) -> String {
     close_leaked_os(path.as_os_str());
     // permission bits of the segment file: other users' clients must be able to read it
     let mode = std::fs::metadata(&path).map(|m| m.mode() & 0o777).unwrap_or(0);
-    format!("ev {} ; crashed open:{} file:{} attached:{} ; restarted{} inode_same:{} len:{} fresh:{} attached:{} mode:{:o}",
-        ev, open1, len1, att1, if r.is_err() { "-panic" } else { "" }, (inode_before != 0 && inode_before == inode_after) as u8, len2, fresh_t, att2, mode)
+    format!("ev {} ; crashed open:{} file:{} attached:{} fresh:{} ; restarted{} inode_same:{} len:{} fresh:{} attached:{} mode:{:o}",
+        ev, open1, len1, att1, fresh1_t, if r.is_err() { "-panic" } else { "" }, (inode_before != 0 && inode_before == inode_after) as u8, len2, fresh_t, att2, mode)
 }
 
 pub fn grid() -> Vec<String> {
     let mut v = Vec::new();
-    let priors = ["missing", "empty", "garbage", "wiped", "valid 4 90", "valid 7 91", "valid 65534 92", "valid 65535 93", "valid 1 94", "validv 3 6 95", "validv 65535 9 96"];
+    let priors = ["missing", "empty", "garbage", "wiped", "valid 4 90", "valid 7 91", "valid 65534 92", "valid 65535 93", "valid 1 94", "validv 3 6 95", "validv 65535 9 96",
+        "foreign 4 97", "foreign 7 98", "foreign 65534 99"];
     for p in priors.iter() {
         for k in 0..24 { v.push(format!("crashpt {} {} 1 2", p, k)); }
     }
     // the same restart over a valid segment whose file is old / whose name is not UTF-8
     for m in ["@old", "@bin", "@old @bin"] {
-        for p in ["valid 4 90", "valid 7 91", "wiped", "missing"] {
+        for p in ["valid 4 90", "valid 7 91", "wiped", "missing", "foreign 4 97"] {
             for k in [0, 12, 18, 30] { v.push(format!("crashpt {} {} {} 1 2", m, p, k)); }
         }
     }
